@@ -10,6 +10,7 @@ from mc import sched_explorer as S
 from mc.runner import Result, h64
 
 PROPERTY = "C19"
+PRELUDE = False     # see mc/prelude.py: this check manages the library state itself
 RULE = ("state = (program counters of the controlled threads at LINE/INSTRUCTION granularity, shared module state); a "
         "schedule = list of (thread, run length) segments; every schedule with <= c preemptions of each listed job "
         "pair/triple is executed on real threads; non-trivial = distinct (job set, per-thread event counts, final "
